@@ -98,3 +98,53 @@ def validate(chk, cases, name="trace_amplitude"):
     chk.add_tlc(name, tv.res, traces=len(recs))
     drifts = [p for p in tv.res.prints if isinstance(p, tuple) and p and p[0] == "DRIFT"]
     return tv, drifts, {r["id"]: c for c, r in zip([c for c in cases if c[3] is not None], recs)}
+
+
+UNIVERSE_CFG = """SPECIFICATION Spec
+CONSTANTS
+ MaxSpin2 = {maxspin2}
+ LeafIds = {{0, 1, 2}}
+ EtaValues <- {etas}
+{invariants}CHECK_DEADLOCK FALSE
+"""
+UNIVERSE_INVARIANTS = "INVARIANT KeysSummed\nINVARIANT ChainsPartition\nINVARIANT PartnerSymmetric\nINVARIANT SignLawSatisfiable\nINVARIANT DOnShell\nINVARIANT NonEmpty\n"
+
+
+def universe_cases(chk, *, stride, offset, which, maxspin2=2, etas="EtaGiven", name="universe"):
+    """Every `stride`-th reaction (from `offset`) of the universe TLC enumerates for spec/Amplitude_MC.tla, formulated with the real
+    builder: -> cases in the format of build_cases.  stride = 1: exhaustive within the constants."""
+    import ampform
+
+    from . import tlc
+
+    res = tlc.run("Amplitude_MC", UNIVERSE_CFG.format(maxspin2=maxspin2, etas=etas, invariants="INVARIANT EmitDescriptor\n"), workers=1, timeout=1800)
+    if not res.ok:
+        raise Machinery(f"Amplitude_MC: {res.violated}")
+    descs = [p[1] for p in res.prints if isinstance(p, tuple) and p and p[0] == "DESC"]
+    if len(descs) < 100:
+        raise Machinery(f"Amplitude_MC enumerated only {len(descs)} descriptors")
+    # a stable order (TLC's print order is its own): by canonical text
+    descs.sort(key=lambda d: (sorted(map(sorted, d["tree"])), sorted((sorted(k), v) for k, v in d["spin"].items()), sorted((sorted(k), v) for k, v in d["eta"].items())))
+    chk.add_tlc(f"{name}_enumeration", res, traces=0)
+    out = []
+    for k, d in enumerate(descs[offset::stride]):
+        spec = U.descriptor_spec(d)
+        if spec is None:
+            continue
+        label = f"universe:{k * stride + offset}"
+        reaction = ampl.make_reaction(spec)
+        try:
+            model = ampform.get_builder(reaction).formulate()
+        except Exception as ex:  # noqa: BLE001
+            out.append((label, reaction, {}, None, {"error": f"{type(ex).__name__}: {ex}"}))
+            continue
+        try:
+            rec = U.model_record(1_000_000 + len(out), reaction, model, do_formula="formula" in which, do_parity="parity" in which, do_closure="closure" in which)
+        except ampl.AmpProjectionError as ex:
+            chk.spec_drift(f"amplitude term shape not understood ({label}): {ex}")
+            continue
+        rec["label"] = label
+        rec["cfg"] = {}
+        out.append((label, reaction, {}, model, rec))
+    chk.part(name, descriptors_enumerated_by_TLC=len(descs), formulated=len(out), stride=stride, offset=offset, constants=f"3 final states, spins <= {maxspin2}/2, eta in {etas}")
+    return out
